@@ -657,12 +657,16 @@ pub fn run(tier: &str) -> ! {
     let mut run = mcx::evidence::Run::new("C14", tier, "model_checking");
     run.assumptions = vec![
         "layer 1 drives fil_actor_miner::State's vesting methods directly (component level) with amounts {1,179,180,181,10^6}".into(),
+        "layer 3 (`c14-et-backlog`): the miner-life walk under SMALL with addressed_partitions_max = 1, from a base whose fault time-out spans two partitions, so that early terminations stay unprocessed across message boundaries; every withdrawal offered there must be refused".into(),
         "layer 2 uses MAINNET policy with sparse ticking over the first vesting days of a real miner created through Power.CreateMiner".into(),
     ];
     let comp = Vesting { adds: if th { 3 } else { 2 }, amounts: vec![1, 179, 180, 181, 1_000_000] };
     run.add(mcx::explore(&comp, &Bounds { max_depth: if th { 8 } else { 5 }, wall_cap_s: if th { 900.0 } else { 25.0 }, replay_sample: 16, ..Default::default() }));
     let act = Withdrawals { msgs: if th { 4 } else { 3 }, jumps: if th { 3 } else { 2 } };
     run.add(mcx::explore(&act, &Bounds { max_depth: if th { 7 } else { 5 }, wall_cap_s: if th { 900.0 } else { 25.0 }, replay_sample: 16, ..Default::default() }));
+    // withdrawals while early terminations await processing (reachable only with a backlog)
+    let (sb, bb) = crate::c15::scenario_backlog(tier, "C14", crate::minerlife::Oracles { c15: true, ..Default::default() });
+    run.add(mcx::explore(&sb, &bb));
     run.finish()
 }
 
